@@ -1,7 +1,31 @@
 /-
-  Props/C04.lean — references into a scope cannot outlive it in safe code (partial: rustc trusted).
+  Props/C04.lean — references into a scope cannot outlive it in safe code; weakening settings conversions
+  are rejected at compile time.
+
+  PARTIAL (rustc trusted): what is proved here is about the region calculus of `Life/Calculus.lean`
+  (see its header for the program shapes it covers) and about the signature table `Gen/Sigs.lean`
+  that is re-extracted from the Rust sources on every run:
+
+    sigs_ok            the extracted table (minus the recorded deviation C04-a) satisfies the decidable
+                       adequacy predicate `sigOK`
+    sound              for EVERY table that satisfies `sigOK`, every program the calculus' type checker
+                       accepts runs without any fault: no value is used after its memory epoch ended,
+                       no handle is used after its arena was dropped, nothing crosses a thread boundary
+                       with a base allocator that is not `Send`/`Sync` (induction over the program,
+                       invariant in `Lemmas/LifeInv.lean`)
+    sound_partial      … in particular for the extracted table
+    sound_target_fails the same statement for the table AS EXTRACTED is false: C04-a
+                       (`impl BumpAllocatorCoreScope<'a> for &'a mut Bump`) admits a well-typed program
+                       that reads a value after `reset` — the Lean image of the known finding
+    conversions_do_not_weaken   a settings conversion that passes the extracted const assertions keeps the
+                       direction, does not lower the minimum alignment on a borrow or on a scope, does not
+                       upgrade guaranteed-allocated and does not change claimable on a borrow — for all settings
+
+  That rustc enforces the calculus' discipline on real programs is not proved; the calculus' checker is
+  compared with rustc on a generated corpus by checks/engines/life.py.
 -/
-import BumpProof.Life.SigOK
+import BumpProof.Lemmas.LifeCall2
+import BumpProof.Lemmas.LifeSettings
 import BumpProof.Gen.Sigs
 
 namespace C04
@@ -20,5 +44,92 @@ theorem sigs_ok : sigOK table = true := by decide
 
 /-- … and C04-a is exactly what is missing: the table as extracted is not adequate -/
 theorem extracted_table_has_deviation : sigOK Gen.Sigs.table = false := by decide
+
+/-- **Soundness of the calculus.**  For every signature table that satisfies `sigOK`, every flag combination
+    (`A: Send`, `A: Sync`) and every program: if the type checker accepts the program, it runs to completion
+    without a fault (`uaf`, `deadArena`, `crossThread`, `stuck`). -/
+theorem sound (t : Table) (hok : sigOK t = true) (fl : Flags) (p : List Stmt) (Γ' : SEnv)
+    (hc : check t fl SEnv.empty p = .ok Γ') : ∃ σ', run fl DState.empty p = .ok σ' := by
+  rcases check_sound hok fl p Inv.empty hc with ⟨σ', h, _⟩
+  exact ⟨σ', h⟩
+
+/-- in particular no statement of an accepted program uses a value after its epoch ended -/
+theorem no_use_after_end (t : Table) (hok : sigOK t = true) (fl : Flags) (p : List Stmt) (Γ' : SEnv)
+    (hc : check t fl SEnv.empty p = .ok Γ') (k : Nat) (f : Fault) : run fl DState.empty p ≠ .error (k, f) := by
+  rcases sound t hok fl p Γ' hc with ⟨σ', h⟩
+  rw [h]; intro h'; cases h'
+
+/-- the full claim for the crate: soundness for the table exactly as extracted -/
+def sound_target : Prop :=
+  ∀ (fl : Flags) (p : List Stmt) (Γ' : SEnv), check Gen.Sigs.table fl SEnv.empty p = .ok Γ' →
+    ∃ σ', run fl DState.empty p = .ok σ'
+
+/-- what is proved: soundness for the extracted table without the recorded deviation C04-a -/
+theorem sound_partial (fl : Flags) (p : List Stmt) (Γ' : SEnv) (hc : check table fl SEnv.empty p = .ok Γ') :
+    ∃ σ', run fl DState.empty p = .ok σ' := sound table sigs_ok fl p Γ' hc
+
+/-- C04-a in the calculus:
+    `let bm = b.borrow_mut_with_settings(); let x = BumpAllocatorTypedScope::alloc_str(&bm, ..); bm.reset(); use(x)` -/
+def c04a_witness : List Stmt :=
+  [.newBump 0, .call 1 0 .viewSame "Bump" "borrow_mut_with_settings", .call 2 1 .alloc "BumpAllocatorTypedScope" "alloc_str",
+   .call 3 1 .resetAll "Bump" "reset", .use 2]
+
+/-- with the `&'a mut Bump` implementor in the table the witness type-checks and is a use after `reset` -/
+theorem c04a_typechecks_and_faults :
+    (check Gen.Sigs.table ⟨true, true⟩ SEnv.empty c04a_witness).isOk = true ∧
+    run ⟨true, true⟩ DState.empty c04a_witness = .error (0, .uaf) := by
+  constructor <;> decide
+
+/-- … so the full claim fails for the table as extracted (the negation is proved, the witness is replayed on
+    the real crate by the check: lifecases/findings/c04a_refmut_bump.rs) -/
+theorem sound_target_fails : ¬ sound_target := by
+  intro h
+  have h1 := c04a_typechecks_and_faults
+  cases hc : check Gen.Sigs.table ⟨true, true⟩ SEnv.empty c04a_witness with
+  | error e => rw [hc] at h1; simp [Except.isOk, Except.toBool] at h1
+  | ok Γ' =>
+    rcases h ⟨true, true⟩ c04a_witness Γ' hc with ⟨σ', hr⟩
+    rw [h1.2] at hr; cases hr
+
+/-- without that implementor the same program is rejected -/
+example : (check table ⟨true, true⟩ SEnv.empty c04a_witness).isOk = false := by decide
+
+/-- **Settings conversions.**  For the extracted const assertions and ALL settings (any minimum alignment): a
+    conversion that compiles does not weaken a guarantee (`required`: direction kept; minimum alignment not lowered
+    on a borrow / on a scope taken by value; guaranteed-allocated not upgraded and claimable unchanged on a borrow). -/
+theorem conversions_do_not_weaken (owner name : String) (old new : Settings)
+    (hc : convOK table owner name old new = some true) :
+    ∃ k, convKind owner name = some k ∧ required k old new = true := by
+  have h : settingsOK table = true := by
+    have := sigs_ok
+    unfold sigOK at this; simp only [Bool.and_eq_true] at this
+    exact this.1.2
+  exact conv_sound h hc
+
+/-! ### non-vacuity: programs the checker accepts / rejects with the extracted table -/
+
+/-- `let x = b.scoped(|s| { let y = s.alloc(..); touch(&y); drop(y); }); drop(b)` is accepted … -/
+example : (check table ⟨true, true⟩ SEnv.empty
+    [.newBump 0, .enter 1 2 0 .enterScoped "Bump" "scoped", .call 3 1 .alloc "BumpScope" "alloc", .use 3, .drop 3,
+     .exit none, .drop 0]).isOk = true := by decide
+
+/-- … returning `y` from the closure is rejected … -/
+example : check table ⟨true, true⟩ SEnv.empty
+    [.newBump 0, .enter 1 2 0 .enterScoped "Bump" "scoped", .call 3 1 .alloc "BumpScope" "alloc", .exit (some 3)]
+    = .error (0, .escape) := by decide
+
+/-- … holding a value across the drop of its guard is rejected … -/
+example : check table ⟨true, true⟩ SEnv.empty
+    [.newBump 0, .call 1 0 .mkGuard "Bump" "scope_guard", .call 2 1 .guardScope "BumpScopeGuard" "scope",
+     .call 3 2 .alloc "BumpScope" "alloc_str", .drop 1, .use 3] = .error (0, .dead) := by decide
+
+/-- … moving a `Bump` to another thread needs `A: Send` … -/
+example : check table ⟨false, false⟩ SEnv.empty [.newBump 0, .send 0] = .error (0, .notSend) := by decide
+example : (check table ⟨true, false⟩ SEnv.empty [.newBump 0, .send 0]).isOk = true := by decide
+
+/-- … lowering the minimum alignment on a shared borrow is rejected by the const assertions, raising it on an
+    exclusive borrow is accepted -/
+example : convOK table "Bump" "borrow_with_settings" ⟨true, 4, true, true⟩ ⟨true, 1, true, true⟩ = some false := by decide
+example : convOK table "Bump" "borrow_mut_with_settings" ⟨true, 1, true, true⟩ ⟨true, 4, true, true⟩ = some true := by decide
 
 end C04
